@@ -700,6 +700,52 @@ func c13DeltaArrays(r *run.Run) {
 		})
 }
 
+// c13FontInfo: the top-level font information: every string field over {empty, a standard string of the
+// format (stored by number), a custom string, a long string}, both flags, for simple and CID-keyed fonts.
+func c13FontInfo(r *run.Run) {
+	strs := []string{"", "Bold", "Verif Custom", strings.Repeat("Long string, ", 25)}
+	names := []string{"V", "Verif-Regular", strings.Repeat("N", 63)}
+	r.Explore(explore.Config{Name: "C13.fontinfo"},
+		"FontInfo of simple and CID-keyed fonts: Version, Notice, Copyright, FullName, FamilyName, Weight each over {empty, the standard string 'Bold', a custom string, 325 characters} (all combinations of two fields deviating from a default, the others fixed), FontName over 3 lengths, IsFixedPitch and ForceBold in all combinations: read back unchanged, and the independent reader finds the strings",
+		func(c *explore.Ctx) {
+			f := &cff.Font{FontInfo: c13Info(), Outlines: &cff.Outlines{Private: []*type1.PrivateDict{c13Priv(0)}, FDSelect: func(glyph.ID) int { return 0 }}}
+			cidKeyed := c.Bool("CID-keyed")
+			if cidKeyed {
+				f.ROS = &cid.SystemInfo{Registry: "Adobe", Ordering: "Identity"}
+				f.FontMatrices = []matrix.Matrix{matrix.Identity}
+				f.Glyphs = []*cff.Glyph{c13Glyph("", 500, 1), c13Glyph("", 600, 2)}
+				f.GIDToCID = []cid.CID{0, 5}
+			} else {
+				f.Glyphs = []*cff.Glyph{c13Glyph(".notdef", 500, 1), c13Glyph("A", 600, 2)}
+				f.Encoding = cff.StandardEncoding(f.Glyphs)
+			}
+			fields := []*string{&f.FontInfo.Version, &f.FontInfo.Notice, &f.FontInfo.Copyright, &f.FontInfo.FullName, &f.FontInfo.FamilyName, &f.FontInfo.Weight}
+			a := c.Choose(len(fields), "first field")
+			b := c.Choose(len(fields), "second field")
+			*fields[a] = strs[c.Choose(len(strs), "first value")]
+			if b != a {
+				*fields[b] = strs[c.Choose(len(strs), "second value")]
+			}
+			f.FontInfo.FontName = names[c.Choose(len(names), "font name")]
+			f.FontInfo.IsFixedPitch = c.Bool("fixed pitch")
+			f.Private[0].ForceBold = c.Bool("force bold")
+			desc := fmt.Sprintf("cid=%v %+v forceBold=%v", cidKeyed, *f.FontInfo, f.Private[0].ForceBold)
+			if len(desc) > 300 {
+				desc = desc[:300] + "..."
+			}
+			c.Sample(func() any { return desc })
+			c.Nontrivial()
+			rf, g := c13Roundtrip(c, "font info", f, desc)
+			if g == nil {
+				return
+			}
+			c13Compare(c, "font info", f, g, desc)
+			if rf != nil && rf.Name != f.FontInfo.FontName {
+				c.Fail("C13.structure", "font info / name index", "the Name INDEX holds %q, the font is called %q", rf.Name, f.FontInfo.FontName)
+			}
+		})
+}
+
 func c13Numbers(r *run.Run) {
 	ints := []int32{0, 107, 108, -107, -108, 1131, 1132, -1131, -1132, 32767, 32768, -32768, -32769, 1<<31 - 1, -1 << 31}
 	reals := []float64{0.5, 0.001, 0.039625, 1e-5, 123456789, 1.23456789e-20, -7.5e12, 0.1, -0.25, 3.0e-3, 1e10, 1e300, -2.5e-300, 3e-310, 5e-324}
@@ -864,6 +910,7 @@ func init() {
 		c13Runs(r)
 		c13AssembledDicts(r)
 		c13Predefined(r)
+		c13FontInfo(r)
 		c13Numbers(r)
 		c13DeltaArrays(r)
 		c13Widths(r)
